@@ -24,9 +24,16 @@
    Deliberate oddities of the code that are modelled as they are: Pipeline on a pod already on the
    node without updateIfExists is Unevict; unevict does not restore NodeName; allocateOperation keeps
    a clone of the task (commit / convert continue on the clone: virtual flag of the clone); a failed
-   Bind un-allocates, clears the log and abandons the remaining operations; a failed Cache.Evict
-   "un-evicts" to the CURRENT (Releasing) status; callers of Allocate/Pipeline assign the pod's GPU
-   groups before the call (gpu_sharing.AllocateFractionalGPUTaskToNode).
+   Bind un-allocates, clears the log and abandons the remaining operations; callers of
+   Allocate/Pipeline assign the pod's GPU groups before the call
+   (gpu_sharing.AllocateFractionalGPUTaskToNode).
+
+   Two places follow the INTENDED behaviour, not the code as first found (both were reproduced as
+   defects on the real code by this module's traces; findings/F14, F15):
+     - un-pipelining a shared pod that Pipeline had moved to another GPU of the same node puts the node's
+       entry of the pod back (the resources on the previous GPU were never removed);
+     - a failed Cache.Evict undoes, newest first, the still valid operations of that pod from the eviction on
+       (the code un-evicted to the CURRENT, already Releasing, status and re-fired the allocate handlers).
 
    Quantities: GPUs in milli-GPU (1 device = 1000), CPU in milli-cores, shared GPU memory in units
    with one device = GpuMem units. All scenario data lives in the variable cfg (constant along a
@@ -232,8 +239,8 @@ ProjOf(pd, nds, jbs, qs) ==
 (***************************************************************************)
 (* Statement operations as functions on S = [pod, node, job, queue, ops]   *)
 (***************************************************************************)
-OpRec(k, p, ps, pn, pg, pv, nn, tgt) == [k |-> k, p |-> p, ps |-> ps, pn |-> pn, pg |-> pg, pv |-> pv, nn |-> nn, tgt |-> tgt]
-UndoRec(i) == OpRec("undo", "", "", "", <<>>, FALSE, "", i)
+OpRec(k, p, ps, pn, pg, pv, nn, tgt, mv) == [k |-> k, p |-> p, ps |-> ps, pn |-> pn, pg |-> pg, pv |-> pv, nn |-> nn, tgt |-> tgt, mv |-> mv]
+UndoRec(i) == OpRec("undo", "", "", "", <<>>, FALSE, "", i, FALSE)
 
 FireAlloc(S, p)   == [S EXCEPT !.queue = QueueApply(@, p, 1)]
 FireDealloc(S, p) == [S EXCEPT !.queue = QueueApply(@, p, -1)]
@@ -257,7 +264,7 @@ EvictOp(S, p) ==
                       !.pod[p].st = "Releasing",
                       !.node[n] = NodeUpdate(n, @, p, "Releasing", pr.groups)]
       S2 == FireDealloc(S1, p)
-  IN [S2 EXCEPT !.ops = Append(@, OpRec("evict", p, pr.st, n, pr.groups, pr.virt, "", 0)),
+  IN [S2 EXCEPT !.ops = Append(@, OpRec("evict", p, pr.st, n, pr.groups, pr.virt, "", 0, FALSE)),
                 !.pod[p].virt = TRUE]
 
 UnevictFn(S, p, ps, n, pg, pv) ==
@@ -266,11 +273,13 @@ UnevictFn(S, p, ps, n, pg, pv) ==
       S2 == [S1 EXCEPT !.node[n] = IF OnNode(@, p) THEN NodeUpdate(n, @, p, ps, pg) ELSE NodeAdd(n, @, p, ps, pg)]
   IN FireAlloc(S2, p)
 
-UnpipelineFn(S, p, pn, ps, pg, pv) ==
+\* mv: Pipeline had moved the pod to another GPU of the node (NodeConsolidate): its entry is put back
+UnpipelineFn(S, p, pn, ps, pg, pv, mv) ==
   LET host == S.pod[p].node
       S1 == [S EXCEPT !.job[PJ(p)] = JobUpdate(@, p, S.pod[p].st, ps),
                       !.pod[p] = [st |-> ps, node |-> pn, groups |-> pg, virt |-> pv]]
-      S2 == [S1 EXCEPT !.node[host] = NodeRemove(host, @, p)]
+      S2 == [S1 EXCEPT !.node[host] = IF mv THEN [NodeRemove(host, @, p) EXCEPT !.pods[p] = [st |-> ps, groups |-> pg]]
+                                      ELSE NodeRemove(host, @, p)]
   IN FireDealloc(S2, p)
 
 UnallocateFn(S, p, pv) ==
@@ -285,7 +294,7 @@ UndoAt(S, i) ==
   IF ~OpValid(S.ops, i) THEN S
   ELSE LET op == S.ops[i]
            S1 == CASE op.k = "evict"    -> UnevictFn(S, op.p, op.ps, op.pn, op.pg, op.pv)
-                   [] op.k = "pipeline" -> UnpipelineFn(S, op.p, op.pn, op.ps, op.pg, op.pv)
+                   [] op.k = "pipeline" -> UnpipelineFn(S, op.p, op.pn, op.ps, op.pg, op.pv, op.mv)
                    [] op.k = "allocate" -> UnallocateFn(S, op.p, op.pv)
                    [] op.k = "undo"     ->
                         \* redo closure of the undone operation. Surviving undo entries only ever target evict
@@ -313,7 +322,7 @@ PipelineOp(S, p, n, upd, gs) ==
                                             ELSE IF on THEN NodeUpdate(n, @, p, "Pipelined", pr.groups)
                                             ELSE NodeAdd(n, @, p, "Pipelined", pr.groups)]
               S3 == FireAlloc(S2, p)
-          IN [S3 EXCEPT !.ops = Append(@, OpRec("pipeline", p, pr.st, pr.node, prevG, pr.virt, n, 0)),
+          IN [S3 EXCEPT !.ops = Append(@, OpRec("pipeline", p, pr.st, pr.node, prevG, pr.virt, n, 0, mv)),
                         !.pod[p].virt = TRUE]
 
 AllocateOp(S, p, n, gs) ==
@@ -324,7 +333,7 @@ AllocateOp(S, p, n, gs) ==
       S2 == [S1 EXCEPT !.node[n] = NodeAdd(n, @, p, "Allocated", pr.groups)]
       S3 == FireAlloc(S2, p)
       \* the log keeps a CLONE of the task: groups (pg) and virtual flag (pv) as of now
-  IN [S3 EXCEPT !.ops = Append(@, OpRec("allocate", p, pr.st, pr.node, pr.groups, pr.virt, n, 0)),
+  IN [S3 EXCEPT !.ops = Append(@, OpRec("allocate", p, pr.st, pr.node, pr.groups, pr.virt, n, 0, FALSE)),
                 !.pod[p].virt = TRUE]
 
 RECURSIVE UndoDown(_, _, _)
@@ -351,6 +360,11 @@ ShouldPipelineJob(pd, j) ==
   /\ \E p \in JobPods(j) : pd[p].st = "Pipelined"
   /\ Cardinality({p \in JobPods(j) : pd[p].st # "Pipelined" /\ ActiveAllocated(pd[p].st)}) < cfg.jobs[j].min
 
+RECURSIVE UndoTaskDown(_, _, _, _)
+UndoTaskDown(S, p, j, lo) ==
+  IF j < lo THEN S
+  ELSE UndoTaskDown(IF S.ops[j].k # "undo" /\ S.ops[j].p = p THEN UndoAt(S, j) ELSE S, p, j - 1, lo)
+
 \* Commit, one valid log entry at a time. NextValid = first valid index >= ci, 0 if none.
 \* (undo entries match no case of the switch in Commit)
 NextValid(os, c) ==
@@ -364,8 +378,8 @@ CommitOne(S, i, ok) ==
       p  == op.p
   IN CASE op.k = "evict" ->
             IF ok THEN [S |-> [S EXCEPT !.pod[p].virt = FALSE], stop |-> FALSE]
-            ELSE \* commitEvict: unevict to the CURRENT status / groups / virtual flag
-                 [S |-> UnevictFn(S, p, S.pod[p].st, op.pn, S.pod[p].groups, S.pod[p].virt), stop |-> FALSE]
+            ELSE \* failed eviction: the still valid operations of p from i on are undone, newest first
+                 [S |-> UndoTaskDown(S, p, Len(S.ops), i), stop |-> FALSE]
        [] op.k = "pipeline" -> [S |-> S, stop |-> FALSE]
        [] op.k = "allocate" ->
             \* commitAllocate works on the CLONE kept in the log: NodeName = nn, groups = pg, virtual = pv
@@ -543,13 +557,19 @@ C13_Discard  == [][act'.n = "Discard" => Proj' = saved[0]]_vars
 \* failed bind, never emits for an undone entry, each pod at most once per call kind
 NetCalls(os) == LET V == SelectSeq([i \in 1..Len(os) |-> [i |-> i, op |-> os[i]]], LAMBDA r : r.op.k # "undo" /\ NetValid(os, r.i))
                 IN [x \in 1..Len(V) |-> CallOf(V[x].op)]
-Stopped(em) == Len(em) > 0 /\ em[Len(em)].c = "bind" /\ ~em[Len(em)].ok
+\* em matches nc in order; entries of a pod whose eviction failed earlier may be dropped (its later
+\* operations are void); when Commit is done nothing else may be missing unless a bind failed
+RECURSIVE Match(_, _, _, _)
+Match(nc, em, failed, done) ==
+  IF em = <<>> THEN (~done) \/ (\A x \in 1..Len(nc) : nc[x].p \in failed)
+  ELSE /\ nc # <<>>
+       /\ \/ /\ Head(nc).c = Head(em).c /\ Head(nc).p = Head(em).p
+             /\ Match(Tail(nc), Tail(em), IF Head(em).c = "evict" /\ ~Head(em).ok THEN failed \cup {Head(em).p} ELSE failed,
+                      done /\ ~(Len(em) = 1 /\ Head(em).c = "bind" /\ ~Head(em).ok))
+          \/ /\ Head(nc).p \in failed /\ Match(Tail(nc), em, failed, done)
 CommitNetOK(pl, em, done) ==
-  LET nc == NetCalls(pl)
-  IN /\ Len(em) <= Len(nc)
-     /\ \A x \in 1..Len(em) : em[x].c = nc[x].c /\ em[x].p = nc[x].p
-     /\ \A x, y \in 1..Len(em) : (x # y /\ em[x].c = em[y].c) => em[x].p # em[y].p
-     /\ done => (Len(em) = Len(nc) \/ Stopped(em))
+  /\ Match(NetCalls(pl), em, {}, done)
+  /\ \A x, y \in 1..Len(em) : (x # y /\ em[x].c = em[y].c) => em[x].p # em[y].p
 C13_CommitNet == CommitNetOK(plan, emitted, phase = "open")
 
 \* C14 (workload / queue part): counters equal the values recomputed from the pod statuses
